@@ -14,7 +14,7 @@ from sa.props._lib_d import Views, resolve_locals, facts_at
 
 PROPERTY = "C17"
 T = "protocols/tls.py"
-TECHNIQUE = "CFG must-pass under state facts, call-site allow-lists with dominating guards, def-use"
+TECHNIQUE = "CFG must-pass/dominance on inlined views, guarded call-site closure, exhaustive 16-state liveness model"
 EXPLANATION = (
     "Decides on protocols/tls.py: (a) ProtocolWrapper.connectionLost is called from exactly one place, on every path of "
     "TLSMemoryBIOProtocol.connectionLost, after the receive BIO was drained into the application and _lostTLSConnection was "
@@ -32,7 +32,26 @@ EXPLANATION = (
     "resumed on drain; (e) a finite model over (handshakeDone, writes buffered, producer, disconnecting), with transitions read off the guards of "
     "loseConnection / unregisterProducer / _unbufferPendingWrites / dataReceived / _checkHandshakeStatus, shows that every state a postponed "
     "loseConnection() can leave behind still reaches abortConnection() or a post-handshake _shutdownTLS(). Not decided: interleavings with OpenSSL's internal state, value-level equality of streams."
+    " METHODS: structural (CFG must-pass / dominance on inlined views, guarded call-site closure, def-use) for every clause; the postponed-close liveness model "
+    "is finite-exhaustive (16 states x events, every transition decided by a full state assignment); the single-threshold tests of _write and of the "
+    "aggregator are evaluated on one representative per class (<, =, >). No bounded rules."
 )
+RULE_KINDS = {
+    # CFG must-pass / must-precede / dominance on the normalised view (unknown private helpers inlined, single-assignment temporaries substituted),
+    # call-site allow-lists closed over the class call graph, def-use of chunk / suffix / accepted count, FIFO who-may-write.  Rules that fix some
+    # state attributes follow both outcomes of every other test, so they hold for every value of everything not fixed.
+    "*": "structural",
+    # all 2^4 abstract states (handshakeDone, writes buffered, producer, disconnecting) x all events; each transition is read off the guards under a
+    # FULL state assignment and must be decided by it (may-reach == must-reach is required per transition, else the section errors): exhaustive
+    "liveness/": "finite-exhaustive",
+    # single threshold comparisons evaluated on one representative of each class they distinguish (< , = , >): position vs len(bytes); space left
+    # after the write vs 0; timer pending or not
+    "write/loop-boundary": "finite-exhaustive",
+    "aggregate/flush-when-full": "finite-exhaustive", "aggregate/flush-scheduled": "finite-exhaustive", "aggregate/one-timer": "finite-exhaustive",
+    "aggregate/size-coupled": "finite-exhaustive",
+    # `self._reason or reason` on both cases (a reason recorded / none)
+    "lost/first-reason-wins": "finite-exhaustive",
+}
 ASSUMPTIONS = [
     "SSL_shutdown before the handshake has completed has no effect (error swallowed by _shutdownTLS); guaranteed events: a registered producer eventually "
     "unregisters, a pending handshake eventually completes, data arrives while writes are blocked on a read",
